@@ -245,6 +245,10 @@ for _sfx in ("", "_async"):
         include_node_contract("C06", _sfx, _b, lambda: REPLAY)
 
 
+for _sfx in ("", "_async"):
+    call_node_contract("C06", _sfx, lambda: REPLAY)
+
+
 not_covered("C06", "custom tags", "`case/when` with duplicate values (MultiExpressionBlockNode repeats a block per matching when; not a construct named by the statement)",
             "the coupling of for, tablerow, render-with-a-bound-array and include-with-a-bound-array is proved on the real render methods (ForNode, TablerowNode, RenderNode, IncludeNode contracts: the block/partial renders with the product multiplied by the length, within the limit); for macros/call and any other repeating node the coupling stays a call-site shape obligation ('coupling'); bound arrays are proved for a spine of 2 items")
 
